@@ -18,6 +18,7 @@ Definition block_eqb (a b : block) : bool :=
   | Para s, Para t => String.eqb s t
   | Bullet s, Bullet t => String.eqb s t
   | Rule, Rule => true
+  | LF, LF => true
   | Table h r, Table h' r' => andb (list_eqb String.eqb h h') (list_eqb (list_eqb String.eqb) r r')
   | _, _ => false
   end.
